@@ -691,6 +691,15 @@ impl Decoded {
     /// content projection used for "same content" comparisons: per sheet name, cells (t, v, f), merges,
     /// hyperlinks joined with their targets, comments; defined names; sheet order. Style indexes and
     /// table sizes are not part of it.
+    /// non-empty entries of the shared string table that no cell of any sheet refers to
+    pub fn unreferenced_strings(&self) -> Vec<(usize, String)> {
+        let mut refs = std::collections::BTreeSet::new();
+        for s in &self.sheets {
+            refs.extend(s.shared_string_refs.iter().cloned());
+        }
+        self.shared_strings.iter().enumerate().filter(|(i, t)| !t.is_empty() && !refs.contains(i)).map(|(i, t)| (i, t.clone())).collect()
+    }
+
     pub fn content(&self) -> serde_json::Value {
         let sheets: Vec<serde_json::Value> = self
             .sheets
